@@ -331,6 +331,17 @@ func (a *agg) crash(cs json.RawMessage, cr *core.Crash) {
 			func() map[string]any {
 				return witness(cs, bin, ops, map[string]any{"combo": combo, "crash": cr, "block_bytes": block})
 			})
+	case phase == "exec" && elemGlobalGetOfNonReference(bin):
+		// input-derived root cause: an element segment takes a reference from a global that is not of a reference type
+		a.violate("exec:process-fault:element-init-global.get-of-non-reference-global:"+cr.Kind, cr.Detail+" ("+combo+")", func() map[string]any {
+			return witness(cs, bin, ops, map[string]any{"combo": combo, "crash": cr, "log_tail": core.Trunc(string(readTail(cr.Log, 6000)), 6000)})
+		})
+	case len(ops) == 1 && strings.HasPrefix(ops[0], "idx-boundary:") && phase != "":
+		// an index field set to a boundary value was accepted and the process died using it
+		sig := "index-boundary:" + strings.TrimPrefix(ops[0], "idx-boundary:") + ":" + phase + "-process-fault:" + cr.Kind
+		a.violate(sig, cr.Detail+" ("+combo+")", func() map[string]any {
+			return witness(cs, bin, ops, map[string]any{"combo": combo, "crash": cr, "log_tail": core.Trunc(string(readTail(cr.Log, 6000)), 6000)})
+		})
 	default:
 		p := phase
 		if p == "" {
@@ -341,6 +352,58 @@ func (a *agg) crash(cs json.RawMessage, cr *core.Crash) {
 		})
 	}
 }
+
+// elemGlobalGetOfNonReference: some element segment initialiser is `global.get g` where the
+// global g (imported or local) has a numeric or vector type.
+func elemGlobalGetOfNonReference(bin []byte) bool {
+	w := Walk(bin)
+	if !w.Hdr {
+		return false
+	}
+	var gtypes []byte
+	for _, im := range w.Imports {
+		if im.Kind == 3 {
+			gtypes = append(gtypes, im.GlobalType)
+		}
+	}
+	for i := range w.Sites {
+		s := &w.Sites[i]
+		if s.Kind == kValType && s.Fn < 0 && !s.InInstr && w.Secs[s.Sec].ID == 6 {
+			gtypes = append(gtypes, byte(s.Val))
+		}
+	}
+	for i := range w.Sites {
+		s := &w.Sites[i]
+		if s.Kind == kGlobalIndex && s.Fn < 0 && s.InInstr && w.Secs[s.Sec].ID == 9 && s.Val < uint64(len(gtypes)) {
+			// the first global.get of an active segment is its offset (an i32 global is right there); a
+			// non-reference global anywhere else in the segment is an initialiser
+			if t := gtypes[s.Val]; t != 0x70 && t != 0x6f && !isElemOffsetExpr(w, i) {
+				return true
+			}
+		}
+	}
+	return false
+}
+
+// isElemOffsetExpr: the site is inside the offset expression of an element segment, i.e.
+// no element kind / reftype / init count field of that segment precedes it.
+func isElemOffsetExpr(w *Walked, i int) bool {
+	for j := i - 1; j >= 0; j-- {
+		switch w.Sites[j].Kind {
+		case kElemMode:
+			return true
+		case kElemInitN, kElemKind:
+			return false
+		case kRefType:
+			if !w.Sites[j].InInstr {
+				return false
+			}
+		}
+	}
+	return true
+}
+
+func unmutatedKind(k string) bool { return k == "seed" || k == "wgen" || k == "lim" || k == "xtpl" }
 
 func opName(rec string) string {
 	if i := strings.IndexByte(rec, ':'); i >= 0 {
@@ -355,7 +418,7 @@ func (a *agg) add(cs json.RawMessage, ic *inCase, o *outCase, calibrating bool) 
 	c.Count("inputs", 1)
 	c.Count("inputs_"+ic.K, 1)
 	a.hashes[o.Hash] = struct{}{}
-	if ic.K != "seed" && ic.K != "wgen" && ic.K != "lim" {
+	if !unmutatedKind(ic.K) {
 		a.mutHash[o.Hash] = struct{}{}
 	}
 	for _, op := range o.Ops {
@@ -397,7 +460,7 @@ func (a *agg) add(cs json.RawMessage, ic *inCase, o *outCase, calibrating bool) 
 	}
 	if anyAcc {
 		c.Count("inputs_accepted_somewhere", 1)
-		if ic.K != "seed" && ic.K != "wgen" && ic.K != "lim" {
+		if !unmutatedKind(ic.K) {
 			c.Count("mutants_accepted_somewhere", 1)
 		}
 	}
@@ -418,7 +481,7 @@ func (a *agg) add(cs json.RawMessage, ic *inCase, o *outCase, calibrating bool) 
 	if o.Executed {
 		a.executed++
 		c.Count("accepted_and_executed_on_both_engines", 1)
-		if ic.K != "seed" && ic.K != "wgen" && ic.K != "lim" {
+		if !unmutatedKind(ic.K) {
 			c.Count("mutants_accepted_and_executed", 1)
 		}
 	}
@@ -453,6 +516,30 @@ func (a *agg) add(cs json.RawMessage, ic *inCase, o *outCase, calibrating bool) 
 		c.Count("findings_"+strings.SplitN(f.Sig, ":", 3)[0], 1)
 		f := f
 		a.violate(f.Sig, f.Detail, func() map[string]any { return witness(cs, bin, ops, map[string]any{"combo": f.Combo}) })
+	}
+	if len(o.Ops) == 1 && strings.HasPrefix(o.Ops[0], "idx-boundary:") {
+		c.Count("idx_mutants", 1)
+		c.Distinct("index_boundary_kinds", o.Ops[0])
+		if anyAcc {
+			c.Count("idx_mutants_accepted_somewhere", 1)
+			c.Distinct("index_boundary_kinds_accepted", o.Ops[0])
+		}
+		if o.Executed {
+			c.Count("idx_mutants_accepted_and_executed", 1)
+		}
+	}
+	if ic.K == "xtpl" {
+		c.Count("idx_templates_checked", 1)
+		for _, k := range []int{8, 9} {
+			if o.Acc[k] != 1 {
+				b, _, _ := buildInput(ic, a.seeds)
+				c.Violate("index-template-rejected:"+engNames[k%2], "by-construction-valid template module rejected under "+comboName(k)+": "+strings.Join(o.Errs, " | "),
+					witness(cs, b, nil, map[string]any{"combo": comboName(k)}))
+			}
+		}
+		if !o.Executed {
+			c.Count("idx_templates_not_executed", 1)
+		}
 	}
 	// validity of by-construction-valid modules
 	if ic.K == "wgen" {
@@ -517,6 +604,9 @@ func run(c *core.Ctx) int {
 	}
 	for i := 0; i < nLimitModules; i++ {
 		addA(inCase{K: "lim", I: i})
+	}
+	for i := 0; i < c.N(150, 1500); i++ {
+		addA(inCase{K: "xtpl", S: rng.U64()}) // unmutated index-boundary templates: must be accepted
 	}
 	resA := core.RunCases(c, "calib", casesA, core.ChildOpts{Batch: 150, TimeoutS: 1200, RlimitAS: rlimitAS, Env: env})
 	outsA := make([]*outCase, len(resA))
@@ -641,7 +731,16 @@ func run(c *core.Ctx) int {
 		for i := 0; i < n; i++ {
 			var ic inCase
 			switch x := rng.Intn(100); {
-			case x >= 86: // instruction-immediate re-encodings of valid modules
+			case x >= 90: // index fields outside bodies replaced by limit / tag boundary values
+				switch y := rng.Intn(4); {
+				case y < 2:
+					ic = inCase{K: "xmut", S: rng.U64()}
+				case y == 2:
+					ic = inCase{K: "xcmut", I: accSeeds[rng.Intn(len(accSeeds))], S: rng.U64()}
+				default:
+					ic = inCase{K: "xwmut", S: rng.U64()}
+				}
+			case x >= 76: // instruction-immediate re-encodings of valid modules
 				k := immKinds[rng.Intn(len(immKinds))]
 				if rng.Chance(3, 5) {
 					l := kindSeeds[k]
@@ -649,13 +748,13 @@ func run(c *core.Ctx) int {
 				} else {
 					ic = inCase{K: "iwmut", S: rng.U64(), W: k}
 				}
-			case x < 50:
+			case x < 44:
 				idx := accSeeds[rng.Intn(len(accSeeds))]
 				if rng.Chance(1, 3) {
 					idx = rng.Intn(len(seeds))
 				}
 				ic = inCase{K: "mut", I: idx, S: rng.U64()}
-			case x < 74:
+			case x < 66:
 				ic = inCase{K: "wmut", S: rng.U64()}
 			default:
 				ic = inCase{K: "raw", S: rng.U64()}
@@ -709,6 +808,9 @@ func run(c *core.Ctx) int {
 	}
 	if c.Counter("imm_call_outcomes_compared_between_engines") == 0 || c.DistinctN("immediate_kinds_mutated") < 20 {
 		c.Inconclusive("monitor-not-reached:immediate-reencoding")
+	}
+	if c.Counter("idx_mutants_accepted_and_executed") == 0 || c.Counter("idx_templates_checked") == 0 || c.DistinctN("index_boundary_kinds") < 60 {
+		c.Inconclusive("monitor-not-reached:index-boundary")
 	}
 	if c.Counter("wgen_validity_checked") == 0 {
 		c.Inconclusive("monitor-not-reached:validity")
